@@ -21,7 +21,7 @@ package main
 //
 //	fromr $a            FromReflectType(t.ReflectType()) in the same universe returns the same object
 //	impl <spec>         named type with methods vs interface: Implements/AssignableTo vs go/types
-//	meth <spec>         AddMethod/Method(i) round trip
+//	look <decls>        FieldByName/MethodByName through embedded fields vs go/types and compiled reflect (c29look.go)
 //	kinds               ToReflectKind / ToBasicKind round trip
 //	imp <pkgpath>       every type of imports.Packages[pkgpath]: FromReflectType round trip vs reflect
 //
@@ -664,6 +664,22 @@ func c29prepare(ops []string) {
 		snipHist = append(snipHist, hi)
 		snipSrcs = append(snipSrcs, srcs)
 	}
+	var lookOps []string
+	seenLook := map[string]bool{}
+	for _, op := range ops {
+		if strings.HasPrefix(op, "look ") && !seenLook[op] {
+			seenLook[op] = true
+			lookOps = append(lookOps, op)
+		}
+	}
+	var lookDone func(string)
+	if len(lookOps) > 0 {
+		var sn Snippet
+		sn, lookDone = c29lookSnippet(lookOps)
+		snippets = append(snippets, sn)
+		snipHist = append(snipHist, -1)
+		snipSrcs = append(snipSrcs, nil)
+	}
 	if len(snippets) == 0 {
 		return
 	}
@@ -673,6 +689,10 @@ func c29prepare(ops []string) {
 		return
 	}
 	for i, out := range outs {
+		if snipHist[i] < 0 {
+			lookDone(out)
+			continue
+		}
 		o := c29oracles[snipHist[i]]
 		o.compiled = map[string]string{}
 		lines := strings.Split(out, "\n")
@@ -1219,6 +1239,8 @@ func c29execOther(f []string) (res Result) {
 		}
 	case "kinds":
 		c29kinds(add)
+	case "look":
+		c29look(f[1], add, &res)
 	case "impl":
 		c29impl(f[1:], add, &res)
 	case "imp":
@@ -1262,14 +1284,20 @@ func c29impl(f []string, add func(string, string, ...interface{}), res *Result) 
 	tint, tstr := v.BasicTypes[reflect.Int], v.BasicTypes[reflect.String]
 	pkg := v.LoadPackage("p")
 	sigs := func(recv xr.Type, k byte) xr.Type {
-		if k == '0' {
+		switch k {
+		case '0':
 			return v.MethodOf(recv, nil, []xr.Type{tint}, false)
+		case '2': // the only parameter is variadic
+			return v.MethodOf(recv, []xr.Type{v.SliceOf(tint)}, nil, true)
 		}
 		return v.MethodOf(recv, []xr.Type{tstr}, nil, false)
 	}
 	sigSrc := func(k byte) string {
-		if k == '0' {
+		switch k {
+		case '0':
 			return "() int"
+		case '2':
+			return "(xs ...int)"
 		}
 		return "(string)"
 	}
@@ -1332,9 +1360,12 @@ func c29impl(f []string, add func(string, string, ...interface{}), res *Result) 
 		for _, m := range strings.Split(im, ",") {
 			name, k := m[:len(m)-1], m[len(m)-1]
 			inames = append(inames, name)
-			if k == '0' {
+			switch k {
+			case '0':
 				itypes = append(itypes, v.FuncOf(nil, []xr.Type{tint}, false))
-			} else {
+			case '2':
+				itypes = append(itypes, v.FuncOf([]xr.Type{v.SliceOf(tint)}, nil, true))
+			default:
 				itypes = append(itypes, v.FuncOf([]xr.Type{tstr}, nil, false))
 			}
 			fmt.Fprintf(&src, " %s%s;", name, sigSrc(k))
@@ -1375,6 +1406,28 @@ func c29impl(f []string, add func(string, string, ...interface{}), res *Result) 
 	}
 	gT, gP, gI := gp.Scope().Lookup("VT").Type(), gp.Scope().Lookup("VP").Type(), gp.Scope().Lookup("VI").Type()
 	gi := gI.Underlying().(*gotypes.Interface)
+	// the methods of the interface: signature and its reflect type agree with the declaration
+	if I.NumMethod() != gi.NumMethods() {
+		add("iface-nummethod", "I has %d methods, NumMethod()=%d", gi.NumMethods(), I.NumMethod())
+	} else {
+		for i := 0; i < I.NumMethod(); i++ {
+			m := I.Method(i)
+			var want *gotypes.Signature
+			for j := 0; j < gi.NumMethods(); j++ {
+				if gi.Method(j).Name() == m.Name {
+					want = gi.Method(j).Type().(*gotypes.Signature)
+				}
+			}
+			if want == nil || m.Type == nil {
+				add("iface-method-missing", "I.Method(%d) = %s (type %v)", i, m.Name, m.Type)
+				continue
+			}
+			rt := m.Type.ReflectType()
+			if m.Type.IsVariadic() != want.Variadic() || rt.IsVariadic() != want.Variadic() || rt.NumIn() != m.Type.NumIn() || m.Type.NumIn() != want.Params().Len()+1 {
+				add("iface-method-variadic", "I.%s: declared variadic=%v with %d parameters; Method(%d).Type variadic=%v NumIn=%d, its reflect type %v", m.Name, want.Variadic(), want.Params().Len(), i, m.Type.IsVariadic(), m.Type.NumIn(), rt)
+			}
+		}
+	}
 	P := v.PtrTo(T)
 	for _, c := range []struct {
 		name string
@@ -1506,8 +1559,15 @@ func c29impOne(v *xr.Universe, rt reflect.Type, add func(string, string, ...inte
 			add("fromreflect-iface-nummethod", "%s: NumMethod() = %d, reflect %d", name, t.NumMethod(), rt.NumMethod())
 		} else {
 			for i := 0; i < rt.NumMethod(); i++ {
-				if t.Method(i).Name != rt.Method(i).Name {
-					add("fromreflect-iface-method", "%s: Method(%d) = %s, reflect %s", name, i, t.Method(i).Name, rt.Method(i).Name)
+				xm, rm := t.Method(i), rt.Method(i)
+				if xm.Name != rm.Name {
+					add("fromreflect-iface-method", "%s: Method(%d) = %s, reflect %s", name, i, xm.Name, rm.Name)
+				} else if xm.Type != nil {
+					// the method as a function: receiver first, same parameters, same variadic flag
+					if xrt := xm.Type.ReflectType(); xrt.Kind() == reflect.Func &&
+						(xrt.IsVariadic() != rm.Type.IsVariadic() || xrt.NumIn() != rm.Type.NumIn()+1 || xm.Type.IsVariadic() != rm.Type.IsVariadic()) {
+						add("fromreflect-iface-method-variadic", "%s.%s: reflect says %v, Method(%d).Type has reflect type %v (variadic %v)", name, rm.Name, rm.Type, i, xrt, xm.Type.IsVariadic())
+					}
 				}
 			}
 		}
